@@ -281,6 +281,7 @@ rp_unframe(int serial, const unsigned char *w, size_t n, struct rp_split *s)
 
 #define RP_WIREMAX 330000
 #define RP_MAXBLOCKS 16
+#define RP_RECMAX 400
 
 struct rp_block {
     unsigned char *p;
@@ -324,6 +325,9 @@ struct rp_h {
     size_t out_calls, out_fail_from; /* sink calls so far; index of the first one that fails (SIZE_MAX: never) */
     unsigned out_failed;
     size_t out_maxper; /* > 0: the reply sink takes at most this many octets per call */
+    /* recycling pool (one block of up to RP_RECMAX octets that is handed out again and again, content intact) */
+    int recycle, rec_live;
+    unsigned char recmem[64 + RP_RECMAX + 64];
     /* backend */
     struct rp_becall call[8];
     int ncalls;
@@ -352,6 +356,18 @@ rp_alloc_cb(void *drv, void **m, size_t n)
         return -ENOMEM;
     }
     struct rp_block *b = &h->blk[h->nblk++];
+    if (h->recycle && !h->rec_live && n <= RP_RECMAX) {
+        /* a pool that hands the same block out again: what the previous frame left in it is still there */
+        h->rec_live = 1;
+        b->p = h->recmem + 64;
+        vh_unpoison(b->p, n);
+        b->size = n;
+        b->live = 1;
+        b->frees = 0;
+        h->nalloc++;
+        *m = b->p;
+        return 0;
+    }
     b->p = vh_arena(n);
     b->size = n;
     b->live = 1;
@@ -373,7 +389,12 @@ static void
 rp_free_cb(void *drv, void *m)
 {
     struct rp_h *h = drv;
+    /* a recycled block appears in the ledger once per life: the live entry is the one being released */
+    int hit = -1;
     for (int i = 0; i < h->nblk; i++)
+        if (h->blk[i].p == m && (hit < 0 || h->blk[i].live))
+            hit = i;
+    for (int i = hit; i >= 0 && i < h->nblk; i = h->nblk)
         if (h->blk[i].p == m) {
             h->blk[i].frees++;
             if (!h->blk[i].live)
@@ -381,6 +402,8 @@ rp_free_cb(void *drv, void *m)
             h->blk[i].live = 0;
             /* a freed block must not be touched again */
             vh_poison(h->blk[i].p, h->blk[i].size);
+            if (h->blk[i].p == h->recmem + 64)
+                h->rec_live = 0;
             return;
         }
     h->bad_free = 1;
@@ -565,6 +588,14 @@ rp_setup(struct rp_h *h, int serial, int mem16, size_t blocksize)
     {
         static const size_t pers[] = { 0, 0, 1, 0, 3, 7, 0, 64 };
         h->out_maxper = blocksize > 1000 ? 0 : pers[(rp_setup_toggle / 2 + vh_unit_salt / 4) % 8];
+    }
+    /* one instance in three draws its frame blocks from a recycling pool */
+    h->recycle = ((rp_setup_toggle / 2 + vh_unit_salt / 8) % 3) == 0 && blocksize <= RP_RECMAX;
+    h->rec_live = 0;
+    vh_unpoison(h->recmem, sizeof h->recmem);
+    if (h->recycle) {
+        memset(h->recmem, 0xA5, sizeof h->recmem);
+        vh_poison(h->recmem, sizeof h->recmem);
     }
     /* every second instance uses a slab-type allocator */
     if ((rp_setup_toggle++ + vh_unit_salt) & 1u)
